@@ -7,7 +7,9 @@ CHECKS = {
    text='Exhaustive TLC model checking of Timer.tla at limb base B (every counter/start/mode/pause/mirror state, every '
         'history of ticks, skips within the horizon, restarts and config writes) decides the design; the induction step of Skip(k) = Tick^k, '
         'Skip(0) = identity and the tightness of the horizon are proved for all 32-bit states by Apalache/SMT (thorough tier for the step); trace validation of '
-        'random 32-bit API histories recorded from real Timer objects binds the code to the same operators.',
+        'random 32-bit API histories recorded from real Timer objects binds the code to the same operators; in the composed System.tla '
+        'guest programs with timers of every mode (line, vectored and unrouted requests, mode changes without restart) run for up to '
+        '500000 cycles in differently cut slices and every slice end is compared.',
    design_ref='5.15',
    note='Trusted: TLC, Apalache/Z3, CommunityModules Json/IOUtils, g++; Timer.tla as a reading of the property; multi-call histories at full '
         '32-bit width are covered by boundary-clustered random traces, exhaustive only at the scaled limb base.',
@@ -83,7 +85,8 @@ CHECKS['C16'] = dict(
         'one frame per period, flags, interrupt timing and Skip(k) = Tick^k; random histories on real Btdmp objects in the Teakra '
         'wiring (direct, MMIO and CoreTiming paths, capacity 16) are validated by TLC against the same operators, and '
         'guest programs feeding both ports on a full Teakra are validated against the composed System.tla (frames, interrupts, flags '
-        'at every slice; idle programs go through Btdmp::Skip while the specification only ticks).',
+        'at every slice; idle programs go through Btdmp::Skip while the specification only ticks; long runs of hundreds of periods '
+        'in differently cut slices).',
    design_ref='5.16',
    note='Trusted: TLC, CommunityModules, g++; Btdmp.tla as a reading of the property. Full width (capacity 16, 16-bit words, '
         'period 4096) is covered by trace validation, exhaustive only at the scaled constants.',
@@ -119,12 +122,14 @@ CHECKS['C14'] = dict(
 CHECKS['C06'] = dict(
    text='The run loop as coded (idle skip through CoreTiming with minimum horizon and additional tick) is compared by TLC with plain '
         'cycle-by-cycle execution on a design model for every start configuration x every composition of the cycle budget; random guest '
-        'programs run on a real Teakra in one piece, in random slices and single-stepped are all validated against System.tla, whose '
-        'only way to consume Run(n) is n Cycle steps, with the complete observation compared after every slice.',
+        'programs run on a real Teakra in one piece, in random slices and single-stepped are all validated against System.tla, which '
+        'consumes Run(n) as n Cycle steps (quiescent stretches are taken by a jump that the Timer/Btdmp Skip = Tick^k lemmas justify), '
+        'with the complete observation compared after every slice; long programs (up to 500000 cycles, timers with 32-bit periods, '
+        'slices cut next to the nearest timer / audio event) are sliced in three ways and all must agree with the specification.',
    design_ref='5.6',
    note='Trusted: TLC, CommunityModules, g++, the frozen TLA+ instruction semantics. The design model covers two timers (all modes) and, '
         'in a second configuration, the audio port in every queue/phase/period state; System.tla composes core, ICU, timers, MIU, both '
-        'audio ports, both mailbox blocks and host API calls at slice boundaries; DMA/AHBM registers are outside it (C13).',
+        'audio ports, both mailbox blocks, DMA, AHBM, external memory and host API calls (including Reset) at slice boundaries.',
    technique='TLA+ spec + TLC exhaustive model checking of the run-loop design + TLC trace validation with silent cycle steps')
 CHECKS['C07'] = dict(
    text='All interleavings of trigger/acknowledge/route/mask/enable operations and instruction boundaries are explored by TLC on a model '
